@@ -454,17 +454,17 @@ def opNewLocked (c : Cfg) (s : State) (ro rnd : Bool) : Res × State :=
   doNewLocked c s r.1 r.2 none ro rnd
 
 def opWProbe (c : Cfg) (s : State) (i off : Nat) : Res × State :=
-  withSlot s i fun sl =>
+  withLive s i .na fun sl =>
     if sl.o.v.len = 0 ∨ sl.o.v.len ≤ off then (.na, s)
     else if permChar s.m.k (probeAddrPage c sl.o.v off) == 'w' then (.ok, s) else (.segv, s)
 
 def opRProbe (c : Cfg) (s : State) (i off : Nat) : Res × State :=
-  withSlot s i fun sl =>
+  withLive s i .na fun sl =>
     if sl.o.v.len = 0 ∨ sl.o.v.len ≤ off then (.na, s)
     else if accessible (permChar s.m.k (probeAddrPage c sl.o.v off)) then (.ok, s) else (.segv, s)
 
 def opGProbe (c : Cfg) (s : State) (i : Nat) (fore : Bool) : Res × State :=
-  withSlot s i fun sl =>
+  withLive s i .na fun sl =>
     if sl.o.v.len = 0 then (.na, s)
     else
       let pg := if fore then sl.o.v.base
